@@ -5,6 +5,8 @@
 package main
 
 import (
+	"runtime/debug"
+	"runtime/pprof"
 	"encoding/json"
 	"flag"
 	"fmt"
@@ -64,7 +66,15 @@ func main() {
 	timeout := fs.Duration("timeout", 0, "wall budget per harness")
 	tlimit := fs.Int("tlimit", 20000, "solver time limit per query (ms)")
 	instrBudget := fs.Int64("instrs", 0, "instruction budget per path")
+	debug.SetGCPercent(400)
+	debug.SetMemoryLimit(40 << 30)
+	cpuprof := fs.String("cpuprofile", "", "write cpu profile")
 	fs.Parse(os.Args[2:])
+	if *cpuprof != "" {
+		f, _ := os.Create(*cpuprof)
+		pprof.StartCPUProfile(f)
+		defer pprof.StopCPUProfile()
+	}
 
 	overlay := map[string][]byte{}
 	pkgDir := filepath.Join(*repo, strings.TrimPrefix(*pkg, "./"))
